@@ -50,6 +50,23 @@ where
         echo: bool,
         include_properties: bool,
     ) -> Result<(), Self::FlowError> {
+        let flow = self.flow(link_credit, drain, echo, include_properties)?;
+        writer
+            .send(flow)
+            .await // cancel safe
+            .map_err(|_| match self.session_stop_reason.get() {
+                Some(reason) => Self::FlowError::SessionStopped(reason.clone()),
+                None => Self::FlowError::IllegalState, // defensive: no stop reason recorded; failure is link-local
+            })
+    }
+
+    fn flow(
+        &self,
+        link_credit: Option<u32>,
+        drain: Option<bool>,
+        echo: bool,
+        include_properties: bool,
+    ) -> Result<LinkFrame, Self::FlowError> {
         let handle = self
             .output_handle
             .clone()
@@ -57,13 +74,7 @@ where
             .into();
 
         let flow = self.get_link_flow(handle, link_credit, drain, echo, include_properties);
-        writer
-            .send(LinkFrame::Flow(flow))
-            .await // cancel safe
-            .map_err(|_| match self.session_stop_reason.get() {
-                Some(reason) => Self::FlowError::SessionStopped(reason.clone()),
-                None => Self::FlowError::IllegalState, // defensive: no stop reason recorded; failure is link-local
-            })
+        Ok(LinkFrame::Flow(flow))
     }
 
     fn on_transfer_state(
@@ -239,15 +250,13 @@ where
         Ok(delivery)
     }
 
-    /// This is cancel safe because it only `.await` on sending over `tokio::mpsc::Sender`
-    async fn dispose(
+    fn disposition(
         &self,
-        writer: &mpsc::Sender<LinkFrame>,
         delivery_info: DeliveryInfo,
         settled: Option<bool>,
         state: DeliveryState,
         batchable: bool,
-    ) -> Result<(), Self::DispositionError> {
+    ) -> Option<LinkFrame> {
         let settled = settled.unwrap_or({
             match delivery_info
                 .rcv_settle_mode
@@ -284,7 +293,7 @@ where
         };
 
         // Only dispose if message is found in unsettled map
-        if unsettled_state.is_some() {
+        unsettled_state.map(|_| {
             let disposition = Disposition {
                 role: Role::Receiver,
                 first: delivery_info.delivery_id,
@@ -293,7 +302,20 @@ where
                 state: Some(state),
                 batchable,
             };
-            let frame = LinkFrame::Disposition(disposition);
+            LinkFrame::Disposition(disposition)
+        })
+    }
+
+    /// This is cancel safe because it only `.await` on sending over `tokio::mpsc::Sender`
+    async fn dispose(
+        &self,
+        writer: &mpsc::Sender<LinkFrame>,
+        delivery_info: DeliveryInfo,
+        settled: Option<bool>,
+        state: DeliveryState,
+        batchable: bool,
+    ) -> Result<(), Self::DispositionError> {
+        if let Some(frame) = self.disposition(delivery_info, settled, state, batchable) {
             writer
                 .send(frame)
                 .await // cancel safe
